@@ -807,7 +807,7 @@ pub fn run(args: &Args) -> i32 {
         args,
         "round = one Market (zeroed, or all bytes random) on which every MarketConfigKey (EnumIter) gets a distinct sentinel through get_config_mut(name) (structured sentinels on even rounds, random u128 incl. >100% on odd rounds), every MarketConfigFlag is toggled through set_config_flag, then all model accessors are read on the program Market and on the SDK MarketModel (same bytes) under EnableMarketClosedParams x market-closed; plus one Store round for every amount / factor / address key. Non-trivial = a key write that changed bytes and was read back, or an accessor read that returned the key's own sentinel on both sides; distinct = hash(kind, key index, switch state, value style, base style).",
     );
-    let rounds = args.scale(60, 2_500);
+    let rounds = crate::util::scaled(args, 6_000, 90_000);
     let shards = 64u64;
     let uncovered_all = std::sync::Mutex::new(Vec::<String>::new());
     let n_keys = K::iter().count();
@@ -848,15 +848,15 @@ pub fn run(args: &Args) -> i32 {
     );
     mon.set_extra("market_config_keys_enumerated", json!(n_keys));
     mon.set_extra("documented_differences", json!(["Store::get_amount_mut refuses claimable_time_window by design (documented in store.rs)"]));
-    mon.require("market_rounds", 500);
-    mon.require("store_rounds", 500);
-    mon.require("market_key_write_confined_to_own_field", 500 * 60);
-    mon.require("model_accessor_equal_program_and_sdk", 100_000);
-    mon.require("closed_params_switch_observed", 2_000);
-    mon.require("normal_params_switch_observed", 2_000);
-    mon.require("market_flag_write_confined_to_own_bit", 2_000);
-    mon.require("store_key_write_confined_to_own_field", 5_000);
-    mon.require("sdk_config_get_equal", 100_000);
+    crate::util::req(args, &mut mon, "market_rounds", 500);
+    crate::util::req(args, &mut mon, "store_rounds", 500);
+    crate::util::req(args, &mut mon, "market_key_write_confined_to_own_field", 500 * 60);
+    crate::util::req(args, &mut mon, "model_accessor_equal_program_and_sdk", 100_000);
+    crate::util::req(args, &mut mon, "closed_params_switch_observed", 2_000);
+    crate::util::req(args, &mut mon, "normal_params_switch_observed", 2_000);
+    crate::util::req(args, &mut mon, "market_flag_write_confined_to_own_bit", 2_000);
+    crate::util::req(args, &mut mon, "store_key_write_confined_to_own_field", 5_000);
+    crate::util::req(args, &mut mon, "sdk_config_get_equal", 100_000);
     mon.assume("field positions come from the SDK's declared layout (declare_program! types, offset_of!), which C40 compares with the program's layout; key -> field / accessor pairs are a hand-written table");
     mon.finish()
 }
